@@ -29,7 +29,8 @@ def lowStep (bot : Option Ty) (v : Ty) : Option Ty :=
 def upStep (top : Option Ty) (v : Ty) : Option Ty :=
   match top with
   | none => some v
-  | some t => if le v t then some v else if le t v then some t else some (join t v)
+  | some t =>
+    if isAny v then some t else if le v t then some v else if le t v then some t else some (join t v)
 
 def optStep (_ : Option (List Ty)) (cs : List Ty) : Option (List Ty) := some cs
 
@@ -55,9 +56,11 @@ theorem step_upper (st : St) (v : Ty) :
     | none => simp [step, upStep]
     | some t =>
       simp only [step, upStep]
-      by_cases h2 : le v t = true
-      · simp [h2]
-      · by_cases h3 : le t v = true <;> simp [h2, h3]
+      by_cases h1 : isAny v = true
+      · simp [h1]
+      · by_cases h2 : le v t = true
+        · simp [h1, h2]
+        · by_cases h3 : le t v = true <;> simp [h1, h2, h3]
 
 theorem run_eq (st : St) (bs : List Bound) :
     run le join st bs =
@@ -297,54 +300,98 @@ theorem low_fold (hL : Laws S le join) (hA : AnyLaws le) (vs : List Ty) :
     simpa using h2
 
 /-- what `top = t` means after the upper bounds `U` have been folded, when the upper bounds are
-pairwise comparable members of the carrier: `t` is a least one of them -/
-structure InvTop (le : Ty → Ty → Bool) (U : List Ty) (t : Ty) : Prop where
-  mem : t ∈ U
+pairwise comparable: `t` is a least one of them (`Any` upper bounds are skipped unless first) -/
+structure InvTop (S : Ty → Prop) (le : Ty → Ty → Bool) (U : List Ty) (t : Ty) : Prop where
+  as : AS S t
+  all : ∀ u ∈ U, AS S u
   lb : ∀ u ∈ U, le t u = true
+  anyt : t = .any → ∀ u ∈ U, u = .any
+  mem : t ∈ U
 
-def InvTopO (le : Ty → Ty → Bool) (U : List Ty) : Option Ty → Prop
+def InvTopO (S : Ty → Prop) (le : Ty → Ty → Bool) (U : List Ty) : Option Ty → Prop
   | none => U = []
-  | some t => InvTop le U t
+  | some t => InvTop S le U t
 
-theorem up_fold (hL : Laws S le join) (Uall : List Ty) (hS : ∀ u ∈ Uall, S u)
+theorem up_fold (hL : Laws S le join) (hA : AnyLaws le) (Uall : List Ty) (hS : ∀ u ∈ Uall, AS S u)
     (hch : ∀ u ∈ Uall, ∀ v ∈ Uall, le u v = true ∨ le v u = true) (vs : List Ty) :
-    ∀ (U : List Ty) (top : Option Ty), InvTopO le U top → (∀ u ∈ U, u ∈ Uall) → (∀ v ∈ vs, v ∈ Uall) →
-      InvTopO le (U ++ vs) (vs.foldl (upStep le join) top) := by
+    ∀ (U : List Ty) (top : Option Ty), InvTopO S le U top → (∀ u ∈ U, u ∈ Uall) → (∀ v ∈ vs, v ∈ Uall) →
+      InvTopO S le (U ++ vs) (vs.foldl (upStep le join) top) := by
   induction vs with
   | nil => intro U top h _ _; simpa using h
   | cons v vs ih =>
     intro U top hinv hU hvs
     have hv : v ∈ Uall := hvs v (by simp)
-    have hstep : InvTopO le (U ++ [v]) (upStep le join top v) := by
+    have hASv : AS S v := hS v hv
+    have hstep : InvTopO S le (U ++ [v]) (upStep le join top v) := by
       cases top with
       | none =>
         simp only [InvTopO] at hinv
         subst hinv
         simp only [upStep, InvTopO, List.nil_append]
-        exact ⟨by simp, fun u hu => by
+        refine ⟨hASv, ?_, ?_, ?_, by simp⟩
+        · intro u hu
           have : u = v := by simpa using hu
-          rw [this]; exact hL.le_refl _ (hS v hv)⟩
+          rw [this]; exact hASv
+        · intro u hu
+          have : u = v := by simpa using hu
+          rw [this]
+          rcases hASv with h | h
+          · rw [h]; exact hA.le_any_left _
+          · exact hL.le_refl _ h
+        · intro h u hu
+          have : u = v := by simpa using hu
+          rw [this, h]
       | some t =>
         simp only [InvTopO] at hinv
-        obtain ⟨hmem, hlb⟩ := hinv
+        obtain ⟨hast, hall, hlb, hanyt, hmem⟩ := hinv
         have ht : t ∈ Uall := hU t hmem
+        have hall' : ∀ u ∈ U ++ [v], AS S u := by
+          intro u hu
+          rcases mem_snoc hu with hu | hu
+          · exact hall u hu
+          · rw [hu]; exact hASv
         simp only [upStep]
-        by_cases h2 : le v t = true
-        · simp only [h2, if_true, InvTopO]
-          refine ⟨by simp, fun u hu => ?_⟩
-          rcases mem_snoc hu with hu | hu
-          · exact hL.le_trans _ _ _ (hS v hv) (hS t ht) (hS u (hU u hu)) h2 (hlb u hu)
-          · rw [hu]; exact hL.le_refl _ (hS v hv)
-        · have h3 : le t v = true := by
-            rcases hch t ht v hv with h | h
-            · exact h
-            · exact absurd h h2
-          have h2' : le v t = false := by simpa using h2
-          simp only [h2', h3, if_true, InvTopO]
-          refine ⟨List.mem_append.mpr (Or.inl hmem), fun u hu => ?_⟩
-          rcases mem_snoc hu with hu | hu
-          · exact hlb u hu
-          · rw [hu]; exact h3
+        by_cases h1 : isAny v = true
+        · -- the `Any` upper bound is skipped
+          have hva : v = .any := isAny_iff.mp h1
+          simp only [h1, if_true, InvTopO]
+          refine ⟨hast, hall', ?_, ?_, List.mem_append.mpr (Or.inl hmem)⟩
+          · intro u hu
+            rcases mem_snoc hu with hu | hu
+            · exact hlb u hu
+            · rw [hu, hva]; exact hA.le_any_right _
+          · intro hta u hu
+            rcases mem_snoc hu with hu | hu
+            · exact hanyt hta u hu
+            · rw [hu, hva]
+        · have h1' : isAny v = false := by simpa using h1
+          have hSv : S v := hASv.of_notAny h1'
+          by_cases h2 : le v t = true
+          · simp only [h1', h2, if_true, InvTopO]
+            refine ⟨hASv, hall', ?_, ?_, by simp⟩
+            · intro u hu
+              rcases mem_snoc hu with hu | hu
+              · by_cases hta : isAny t = true
+                · rw [hanyt (isAny_iff.mp hta) u hu]; exact hA.le_any_right _
+                · exact le_trans_as hL hA (Or.inr hSv) (hast.of_notAny (by simpa using hta)) (hall u hu) h2 (hlb u hu)
+              · rw [hu]; exact hL.le_refl _ hSv
+            · intro hva; rw [hva] at h1'; simp [isAny] at h1'
+          · have h2' : le v t = false := by simpa using h2
+            have htn : isAny t = false := by
+              cases hta : isAny t with
+              | false => rfl
+              | true => rw [isAny_iff.mp hta, hA.le_any_right] at h2'; exact absurd h2' (by simp)
+            have h3 : le t v = true := by
+              rcases hch t ht v hv with h | h
+              · exact h
+              · exact absurd h h2
+            simp only [h1', h2', h3, if_true, InvTopO]
+            refine ⟨hast, hall', ?_, ?_, List.mem_append.mpr (Or.inl hmem)⟩
+            · intro u hu
+              rcases mem_snoc hu with hu | hu
+              · exact hlb u hu
+              · rw [hu]; exact h3
+            · intro hta; rw [hta] at htn; simp [isAny] at htn
     have := ih (U ++ [v]) (upStep le join top v) hstep
       (fun u hu => by
         rcases mem_snoc hu with hu | hu
@@ -482,16 +529,11 @@ theorem bottom_inv (hL : Laws S le join) (hA : AnyLaws le) (bs : List Bound)
     (fun v hv => hreach v (reach_lowers hv)) (fun x hx => hreach x (reach_lowTrail hx))
   simpa using this
 
-/-- the invariant of `top` at the end of the loop, for pairwise comparable non-`Any` upper bounds -/
-theorem top_inv (hL : Laws S le join) (bs : List Bound)
-    (hreach : ∀ v ∈ reach le join bs, AS S v)
-    (hnoAny : D15_anyUpper bs = false) (hch : D15_twoUppers le bs = false) :
-    InvTopO le (uppers bs) ((uppers bs).foldl (upStep le join) none) := by
-  have hS : ∀ u ∈ uppers bs, S u := by
-    intro u hu
-    refine (hreach u (reach_uppers hu)).of_notAny ?_
-    simp only [D15_anyUpper, List.any_eq_false] at hnoAny
-    simpa using hnoAny u hu
+/-- the invariant of `top` at the end of the loop, for pairwise comparable upper bounds -/
+theorem top_inv (hL : Laws S le join) (hA : AnyLaws le) (bs : List Bound)
+    (hreach : ∀ v ∈ reach le join bs, AS S v) (hch : D15_twoUppers le bs = false) :
+    InvTopO S le (uppers bs) ((uppers bs).foldl (upStep le join) none) := by
+  have hS : ∀ u ∈ uppers bs, AS S u := fun u hu => hreach u (reach_uppers hu)
   have hch' : ∀ u ∈ uppers bs, ∀ v ∈ uppers bs, le u v = true ∨ le v u = true := by
     intro u hu v hv
     by_cases h1 : le u v = true
@@ -503,7 +545,7 @@ theorem top_inv (hL : Laws S le join) (bs : List Bound)
           simp only [D15_twoUppers, List.any_eq_true]
           exact ⟨u, hu, v, hv, by simp [h1, h2]⟩
         rw [hch] at this; exact absurd this (by simp)
-  have := up_fold hL (uppers bs) hS hch' (uppers bs) [] none rfl (by simp) (fun v hv => hv)
+  have := up_fold hL hA (uppers bs) hS hch' (uppers bs) [] none rfl (by simp) (fun v hv => hv)
   simpa using this
 
 theorem mem_of_getLast? {α} {l : List α} {a : α} (h : l.getLast? = some a) : a ∈ l :=
@@ -566,13 +608,6 @@ theorem solve_constraint_core (bs : List Bound) {s : Ty} {src : Src} {cs : List 
       intro h'
       exact hne s src (by rw [← h']))
 
-theorem uppers_S (bs : List Bound) (hreach : ∀ v ∈ reach le join bs, AS S v)
-    (hnoAny : D15_anyUpper bs = false) : ∀ u ∈ uppers bs, S u := by
-  intro u hu
-  refine (hreach u (reach_uppers hu)).of_notAny ?_
-  simp only [D15_anyUpper, List.any_eq_false] at hnoAny
-  simpa using hnoAny u hu
-
 theorem oneOfs_nil_of_upper {bs : List Bound} (hno : D15_oneOfUpper bs = false) {u : Ty}
     (hu : u ∈ uppers bs) : oneOfs bs = [] := by
   cases h : oneOfs bs with
@@ -588,18 +623,23 @@ theorem uppers_nil_of_oneOf {bs : List Bound} (hno : D15_oneOfUpper bs = false) 
   | nil => rfl
   | cons _ _ => simp [D15_oneOfUpper, h, hU] at hno
 
-/-- **upper bounds** — outside the three exception classes the solution is accepted by every
-upper bound. -/
+/-- `b ≤ t ≤ u` where `t` is the folded top -/
+theorem le_through_top (hL : Laws S le join) (hA : AnyLaws le) {U : List Ty} {t b u : Ty}
+    (hT : InvTop S le U t) (hb : AS S b) (hu : u ∈ U) (hbt : le b t = true) : le b u = true := by
+  by_cases hta : isAny t = true
+  · rw [hT.anyt (isAny_iff.mp hta) u hu]; exact hA.le_any_right _
+  · exact le_trans_as hL hA hb (hT.as.of_notAny (by simpa using hta)) (hT.all u hu) hbt (hT.lb u hu)
+
+/-- **upper bounds** — outside the exception classes the solution is accepted by every upper bound. -/
 theorem solve_upper_core (hL : Laws S le join) (hA : AnyLaws le) (bs : List Bound)
     (hreach : ∀ v ∈ reach le join bs, AS S v)
-    (hnoAny : D15_anyUpper bs = false) (hch : D15_twoUppers le bs = false)
+    (hch : D15_twoUppers le bs = false)
     (hno : D15_oneOfUpper bs = false) {s : Ty} {src : Src}
     (h : solve le join bs = .ok s src) : ∀ u ∈ uppers bs, le s u = true := by
   intro u hu
   have hone := oneOfs_nil_of_upper hno hu
-  have hT := top_inv hL bs hreach hnoAny hch
+  have hT := top_inv hL hA bs hreach hch
   have hB := bottom_inv hL hA bs hreach
-  have hSU := uppers_S bs hreach hnoAny
   rw [solve_unfold, hone] at h
   simp only [List.getLast?_nil] at h
   cases ht : (uppers bs).foldl (upStep le join) none with
@@ -610,7 +650,6 @@ theorem solve_upper_core (hL : Laws S le join) (hA : AnyLaws le) (bs : List Boun
   | some t =>
     rw [ht] at hT h
     simp only [InvTopO] at hT
-    have hSt : S t := hSU t hT.mem
     cases hb : (lowers bs).foldl (lowStep le join) none with
     | none =>
       rw [hb] at h
@@ -623,19 +662,38 @@ theorem solve_upper_core (hL : Laws S le join) (hA : AnyLaws le) (bs : List Boun
       by_cases hbt : le b t = true
       · simp only [hbt, if_true, choose, Result.ok.injEq] at h
         rw [← h.1]
-        exact le_trans_as hL hA hB.as hSt (Or.inr (hSU u hu)) hbt (hT.lb u hu)
+        exact le_through_top hL hA hT hB.as hu hbt
       · simp [hbt] at h
+
+/-- `bottom ≤ top` says: every lower bound is below every upper bound -/
+theorem le_bt_iff (hL : Laws S le join) (hA : AnyLaws le) {L U : List Ty} {b t : Ty}
+    (hB : InvLow S le L b) (hT : InvTop S le U t) :
+    le b t = ((L.all fun l => U.all fun u => le l u)) := by
+  rw [Bool.eq_iff_iff]
+  simp only [List.all_eq_true]
+  constructor
+  · intro hbt l hl u hu
+    by_cases hba : isAny b = true
+    · rw [hB.anyb (isAny_iff.mp hba) l hl]; exact hA.le_any_left _
+    · have hSb : S b := hB.as.of_notAny (by simpa using hba)
+      have h1 : le l t = true := le_trans_as hL hA (hB.all l hl) hSb hT.as (hB.ub l hl) hbt
+      exact le_through_top hL hA hT (hB.all l hl) hu h1
+  · intro hall
+    by_cases hba : isAny b = true
+    · rw [isAny_iff.mp hba]; exact hA.le_any_left _
+    · rcases hT.as with hta | hSt
+      · rw [hta]; exact hA.le_any_right _
+      · exact hB.lub t hSt fun l hl => hall l hl t hT.mem
 
 /-- **verdict** — outside the exception classes, and with at most one constraint list, the solver
 accepts exactly the satisfiable bound sets. -/
 theorem solve_isOk_eq_spec (hL : Laws S le join) (hA : AnyLaws le) (bs : List Bound)
     (hreach : ∀ v ∈ reach le join bs, AS S v)
-    (hnoAny : D15_anyUpper bs = false) (hch : D15_twoUppers le bs = false)
+    (hch : D15_twoUppers le bs = false)
     (hno : D15_oneOfUpper bs = false) (hone : multiOneOf bs = false) :
     (solve le join bs).isOk = specOk le bs := by
-  have hT := top_inv hL bs hreach hnoAny hch
+  have hT := top_inv hL hA bs hreach hch
   have hB := bottom_inv hL hA bs hreach
-  have hSU := uppers_S bs hreach hnoAny
   have hASl : ∀ l ∈ lowers bs, AS S l := fun l hl => hreach l (reach_lowers hl)
   rw [solve_unfold]
   cases hO : oneOfs bs with
@@ -658,27 +716,13 @@ theorem solve_isOk_eq_spec (hL : Laws S le join) (hA : AnyLaws le) (bs : List Bo
       | some t =>
         rw [ht] at hT
         simp only [InvTopO] at hT
-        have hSt : S t := hSU t hT.mem
-        have hiff : le b t = true ↔ ∀ l ∈ lowers bs, ∀ u ∈ uppers bs, le l u = true := by
-          constructor
-          · intro hbt l hl u hu
-            by_cases hba : isAny b = true
-            · rw [hB.anyb (isAny_iff.mp hba) l hl]; exact hA.le_any_left _
-            · have hSb : S b := hB.as.of_notAny (by simpa using hba)
-              have h1 : le l t = true := le_trans_as hL hA (hASl l hl) hSb (Or.inr hSt) (hB.ub l hl) hbt
-              exact le_trans_as hL hA (hASl l hl) hSt (Or.inr (hSU u hu)) h1 (hT.lb u hu)
-          · intro hall
-            by_cases hba : isAny b = true
-            · rw [isAny_iff.mp hba]; exact hA.le_any_left _
-            · exact hB.lub t hSt fun l hl => hall l hl t hT.mem
         have hl : (finish le ⟨some b, some t, none⟩).isOk = le b t := by
           by_cases hbt : le b t = true
           · simp [finish, pick, choose, Result.isOk, hbt]
           · have hbt' : le b t = false := by simpa using hbt
             simp [finish, pick, Result.isOk, hbt']
-        rw [hl, Bool.eq_iff_iff]
-        simp only [List.all_eq_true]
-        exact hiff
+        rw [hl]
+        exact le_bt_iff hL hA hB hT
   | cons cs rest =>
     have hrest : rest = [] := by
       cases rest with
@@ -719,14 +763,15 @@ theorem solve_isOk_eq_spec (hL : Laws S le join) (hA : AnyLaws le) (bs : List Bo
 
 /-- An order-free description of the solver's verdict that also covers constraints combined with upper
 bounds (where the solver accepts more than `specOk`): with constraints, some constraint has to
-accept the lower bounds — or, without lower bounds, to accept some upper bound. -/
+accept the lower bounds — or, without lower bounds, to accept some non-`Any` upper bound. -/
 def verdictSpec (le : Ty → Ty → Bool) (bs : List Bound) : Bool :=
   ((lowers bs).all fun l => (uppers bs).all fun u => le l u) &&
   match oneOfs bs with
   | [] => true
   | cs :: _ =>
     if (lowers bs).isEmpty then
-      (if (uppers bs).isEmpty then !cs.isEmpty else cs.any fun o => (uppers bs).any fun u => le u o)
+      (if ((uppers bs).filter fun u => !isAny u).isEmpty then !cs.isEmpty
+       else cs.any fun o => ((uppers bs).filter fun u => !isAny u).any fun u => le u o)
     else cs.any fun o => (lowers bs).all fun l => le l o
 
 theorem any_true_eq {α} (l : List α) : (l.any fun _ => true) = !l.isEmpty := by
@@ -734,18 +779,16 @@ theorem any_true_eq {α} (l : List α) : (l.any fun _ => true) = !l.isEmpty := b
 
 theorem solve_isOk_eq_verdictSpec (hL : Laws S le join) (hA : AnyLaws le) (bs : List Bound)
     (hreach : ∀ v ∈ reach le join bs, AS S v)
-    (hnoAny : D15_anyUpper bs = false) (hch : D15_twoUppers le bs = false)
+    (hch : D15_twoUppers le bs = false)
     (hone : multiOneOf bs = false) :
     (solve le join bs).isOk = verdictSpec le bs := by
-  have hT := top_inv hL bs hreach hnoAny hch
+  have hT := top_inv hL hA bs hreach hch
   have hB := bottom_inv hL hA bs hreach
-  have hSU := uppers_S bs hreach hnoAny
   have hASl : ∀ l ∈ lowers bs, AS S l := fun l hl => hreach l (reach_lowers hl)
   cases hO : oneOfs bs with
   | nil =>
-    -- no constraints: `oneOfUpper` is vacuous and `verdictSpec` is `specOk`
     have h3 : D15_oneOfUpper bs = false := by simp [D15_oneOfUpper, hO]
-    rw [solve_isOk_eq_spec hL hA bs hreach hnoAny hch h3 hone]
+    rw [solve_isOk_eq_spec hL hA bs hreach hch h3 hone]
     simp [specOk, verdictSpec, hO]
   | cons cs rest =>
     have hrest : rest = [] := by
@@ -756,7 +799,6 @@ theorem solve_isOk_eq_verdictSpec (hL : Laws S le join) (hA : AnyLaws le) (bs : 
     have hAScs : ∀ o ∈ cs, AS S o := fun o ho => hreach o (reach_options (by rw [hO]; simp) ho)
     rw [solve_unfold, hO]
     simp only [List.getLast?_singleton, verdictSpec, hO]
-    -- what the constraints demand of the value handed to `choose`
     have hopt : ∀ b, InvLow S le (lowers bs) b →
         (cs.any fun o => le b o) = (cs.any fun o => (lowers bs).all fun l => le l o) := by
       intro b hB
@@ -789,18 +831,31 @@ theorem solve_isOk_eq_verdictSpec (hL : Laws S le join) (hA : AnyLaws le) (bs : 
       | some t =>
         rw [ht] at hT
         simp only [InvTopO] at hT
-        have hne : (uppers bs).isEmpty = false := by
-          cases hU : uppers bs with
-          | nil => rw [hU] at hT; exact absurd hT.mem (by simp)
-          | cons _ _ => rfl
-        simp only [finish, pick, choose_isOk, hne]
-        rw [Bool.eq_iff_iff]
-        simp only [List.any_eq_true, Bool.false_eq_true, if_false]
-        constructor
-        · rintro ⟨o, ho, hto⟩
-          exact ⟨o, ho, t, hT.mem, hto⟩
-        · rintro ⟨o, ho, u, hu, huo⟩
-          exact ⟨o, ho, le_trans_as hL hA (Or.inr (hSU t hT.mem)) (hSU u hu) (hAScs o ho) (hT.lb u hu) huo⟩
+        simp only [finish, pick, choose_isOk]
+        by_cases hta : isAny t = true
+        · -- every upper bound is `Any`
+          have hf : ((uppers bs).filter fun u => !isAny u) = [] := by
+            rw [List.filter_eq_nil_iff]
+            intro u hu
+            rw [hT.anyt (isAny_iff.mp hta) u hu]; simp [isAny]
+          rw [hf, isAny_iff.mp hta]
+          simp [hA.le_any_left, any_true_eq]
+        · have hSt : S t := hT.as.of_notAny (by simpa using hta)
+          have hmemf : t ∈ (uppers bs).filter fun u => !isAny u := by
+            simp only [List.mem_filter, Bool.not_eq_true']
+            exact ⟨hT.mem, by simpa using hta⟩
+          have hne : ((uppers bs).filter fun u => !isAny u).isEmpty = false := by
+            cases hF : (uppers bs).filter fun u => !isAny u with
+            | nil => rw [hF] at hmemf; simp at hmemf
+            | cons _ _ => rfl
+          rw [hne]
+          rw [Bool.eq_iff_iff]
+          simp only [List.any_eq_true, Bool.false_eq_true, if_false, List.mem_filter, Bool.not_eq_true']
+          constructor
+          · rintro ⟨o, ho, hto⟩
+            exact ⟨o, ho, t, ⟨hT.mem, by simpa using hta⟩, hto⟩
+          · rintro ⟨o, ho, u, ⟨hu, hun⟩, huo⟩
+            exact ⟨o, ho, le_trans_as hL hA (Or.inr hSt) ((hT.all u hu).of_notAny hun) (hAScs o ho) (hT.lb u hu) huo⟩
     | some b =>
       rw [hb] at hB
       simp only [InvLowO] at hB
@@ -818,39 +873,24 @@ theorem solve_isOk_eq_verdictSpec (hL : Laws S le join) (hA : AnyLaws le) (bs : 
       | some t =>
         rw [ht] at hT
         simp only [InvTopO] at hT
-        have hSt : S t := hSU t hT.mem
-        have hiff : le b t = ((lowers bs).all fun l => (uppers bs).all fun u => le l u) := by
-          rw [Bool.eq_iff_iff]
-          simp only [List.all_eq_true]
-          constructor
-          · intro hbt l hl u hu
-            by_cases hba : isAny b = true
-            · rw [hB.anyb (isAny_iff.mp hba) l hl]; exact hA.le_any_left _
-            · have hSb : S b := hB.as.of_notAny (by simpa using hba)
-              have h1 : le l t = true := le_trans_as hL hA (hASl l hl) hSb (Or.inr hSt) (hB.ub l hl) hbt
-              exact le_trans_as hL hA (hASl l hl) hSt (Or.inr (hSU u hu)) h1 (hT.lb u hu)
-          · intro hall
-            by_cases hba : isAny b = true
-            · rw [isAny_iff.mp hba]; exact hA.le_any_left _
-            · exact hB.lub t hSt fun l hl => hall l hl t hT.mem
-        rw [← hiff]
+        rw [← le_bt_iff hL hA hB hT]
         by_cases hbt : le b t = true
         · simp [finish, pick, choose_isOk, hbt]
         · have hbt' : le b t = false := by simpa using hbt
           simp [finish, pick, Result.isOk, hbt']
 
 /-- **the specification means what it says**: `specOk` holds exactly when some value of the carrier
-satisfies all the bounds (pairwise comparable non-`Any` upper bounds, constraints in the carrier,
+satisfies all the bounds (pairwise comparable upper bounds, constraints in the carrier,
 at most one constraint list). -/
 theorem specOk_iff_exists_core (hL : Laws S le join) (hA : AnyLaws le) (bs : List Bound)
     (hreach : ∀ v ∈ reach le join bs, AS S v)
     (hopt : ∀ cs ∈ oneOfs bs, ∀ c ∈ cs, S c)
-    (hnoAny : D15_anyUpper bs = false) (hch : D15_twoUppers le bs = false)
+    (hch : D15_twoUppers le bs = false)
     (hone : multiOneOf bs = false) (hne : ∃ a, S a) :
     specOk le bs = true ↔ ∃ s, S s ∧ Sat le bs s := by
-  have hT := top_inv hL bs hreach hnoAny hch
+  have hT := top_inv hL hA bs hreach hch
   have hB := bottom_inv hL hA bs hreach
-  have hSU := uppers_S bs hreach hnoAny
+  have hASu : ∀ u ∈ uppers bs, AS S u := fun u hu => hreach u (reach_uppers hu)
   have hASl : ∀ l ∈ lowers bs, AS S l := fun l hl => hreach l (reach_lowers hl)
   constructor
   · intro hspec
@@ -872,23 +912,27 @@ theorem specOk_iff_exists_core (hL : Laws S le join) (hA : AnyLaws le) (bs : Lis
       have : cs' = cs := by simpa using hcs'
       rw [this]; exact ho
     | nil =>
-      -- a least upper bound of the lower bounds, or a least upper bound, or any member of the carrier
       have hsat0 : ∀ cs ∈ oneOfs bs, ∀ (s : Ty), s ∈ cs := by intro cs hcs; rw [hO] at hcs; simp at hcs
       have fromTop : (∀ l ∈ lowers bs, l = .any) → ∃ s, S s ∧ Sat le bs s := by
         intro hallAny
+        have viaAny : (∀ u ∈ uppers bs, u = .any) → ∃ s, S s ∧ Sat le bs s := by
+          intro hU
+          obtain ⟨a, ha⟩ := hne
+          refine ⟨a, ha, fun l hl => ?_, fun u hu => ?_, fun cs hcs => hsat0 cs hcs a⟩
+          · rw [hallAny l hl]; exact hA.le_any_left _
+          · rw [hU u hu]; exact hA.le_any_right _
         cases ht : (uppers bs).foldl (upStep le join) none with
         | none =>
           rw [ht] at hT
           simp only [InvTopO] at hT
-          obtain ⟨a, ha⟩ := hne
-          refine ⟨a, ha, fun l hl => ?_, fun u hu => ?_, fun cs hcs => hsat0 cs hcs a⟩
-          · rw [hallAny l hl]; exact hA.le_any_left _
-          · rw [hT] at hu; simp at hu
+          exact viaAny (by rw [hT]; simp)
         | some t =>
           rw [ht] at hT
           simp only [InvTopO] at hT
-          refine ⟨t, hSU t hT.mem, fun l hl => ?_, hT.lb, fun cs hcs => hsat0 cs hcs t⟩
-          rw [hallAny l hl]; exact hA.le_any_left _
+          by_cases hta : isAny t = true
+          · exact viaAny (hT.anyt (isAny_iff.mp hta))
+          · refine ⟨t, hT.as.of_notAny (by simpa using hta), fun l hl => ?_, hT.lb, fun cs hcs => hsat0 cs hcs t⟩
+            rw [hallAny l hl]; exact hA.le_any_left _
       cases hb : (lowers bs).foldl (lowStep le join) none with
       | none =>
         rw [hb] at hB
@@ -901,10 +945,12 @@ theorem specOk_iff_exists_core (hL : Laws S le join) (hA : AnyLaws le) (bs : Lis
         · exact fromTop (hB.anyb (isAny_iff.mp hba))
         · have hSb : S b := hB.as.of_notAny (by simpa using hba)
           refine ⟨b, hSb, hB.ub, fun u hu => ?_, fun cs hcs => hsat0 cs hcs b⟩
-          exact hB.lub u (hSU u hu) fun l hl => hlu l hl u hu
+          rcases hASu u hu with hua | hSu
+          · rw [hua]; exact hA.le_any_right _
+          · exact hB.lub u hSu fun l hl => hlu l hl u hu
   · rintro ⟨s, hSs, hlow, hup, hoo⟩
     simp only [specOk, Bool.and_eq_true, List.all_eq_true]
-    refine ⟨fun l hl u hu => le_trans_as hL hA (hASl l hl) hSs (Or.inr (hSU u hu)) (hlow l hl) (hup u hu), ?_⟩
+    refine ⟨fun l hl u hu => le_trans_as hL hA (hASl l hl) hSs (hASu u hu) (hlow l hl) (hup u hu), ?_⟩
     cases hO : oneOfs bs with
     | nil => rfl
     | cons cs rest =>
@@ -985,9 +1031,6 @@ theorem specOk_perm {bs bs' : List Bound} (h : bs.Perm bs') (hone : multiOneOf b
     congr 1; funext o
     rw [all_perm hl.symm, all_perm hu.symm]
 
-theorem anyUpper_perm {bs bs' : List Bound} (h : bs.Perm bs') : D15_anyUpper bs' = D15_anyUpper bs := by
-  unfold D15_anyUpper; exact any_perm (uppers_perm h).symm _
-
 theorem twoUppers_perm {bs bs' : List Bound} (h : bs.Perm bs') :
     D15_twoUppers le bs' = D15_twoUppers le bs := by
   unfold D15_twoUppers
@@ -1016,6 +1059,7 @@ theorem verdictSpec_perm (le : Ty → Ty → Bool) {bs bs' : List Bound} (h : bs
     (hone : multiOneOf bs = false) : verdictSpec le bs' = verdictSpec le bs := by
   have hl := lowers_perm h
   have hu := uppers_perm h
+  have hf : ((uppers bs).filter fun u => !isAny u).Perm ((uppers bs').filter fun u => !isAny u) := hu.filter _
   have ho := oneOfs_eq_of_perm h hone
   unfold verdictSpec
   rw [ho]
@@ -1024,7 +1068,7 @@ theorem verdictSpec_perm (le : Ty → Ty → Bool) {bs bs' : List Bound} (h : bs
     rw [all_perm hl.symm]
     congr 1; funext l
     exact all_perm hu.symm _
-  rw [e1, isEmpty_perm hl.symm, isEmpty_perm hu.symm]
+  rw [e1, isEmpty_perm hl.symm, isEmpty_perm hf.symm]
   congr 1
   cases oneOfs bs with
   | nil => rfl
@@ -1032,7 +1076,7 @@ theorem verdictSpec_perm (le : Ty → Ty → Bool) {bs bs' : List Bound} (h : bs
     simp only
     congr 1
     · congr 1; congr 1; funext o
-      exact any_perm hu.symm _
+      exact any_perm hf.symm _
     · congr 1; funext o
       exact all_perm hl.symm _
 
@@ -1141,18 +1185,17 @@ theorem upStep_AS (hA : AnyLaws le) (hcl : ∀ a b, S a → S b → S (join a b)
   | some t =>
     have ht' := ht t rfl
     simp only [upStep] at hx
+    by_cases h1 : isAny v = true
+    · simp [h1] at hx; rw [← hx]; exact ht'
+    have hvn : isAny v = false := by simpa using h1
     by_cases h2 : le v t = true
-    · simp [h2] at hx; rw [← hx]; exact hv
+    · simp [hvn, h2] at hx; rw [← hx]; exact hv
     · have h2' : le v t = false := by simpa using h2
       by_cases h3 : le t v = true
-      · simp [h2', h3] at hx; rw [← hx]; exact ht'
+      · simp [hvn, h2', h3] at hx; rw [← hx]; exact ht'
       · have h3' : le t v = false := by simpa using h3
-        simp [h2', h3'] at hx
+        simp [hvn, h2', h3'] at hx
         rw [← hx]
-        have hvn : isAny v = false := by
-          cases hva : isAny v with
-          | false => rfl
-          | true => rw [isAny_iff.mp hva, hA.le_any_left] at h2'; exact absurd h2' (by simp)
         have htn : isAny t = false := by
           cases hta : isAny t with
           | false => rfl
